@@ -219,6 +219,9 @@ theorem pretty_struct_roundtrip (hT : TablesOK) (cfg : PCfg) (hC : CfgOK cfg) (m
   | sym name =>
     have hP := leafP (.sym name) (by intro _ _; simp [prettyPieces, printFlat])
     exact ⟨hP, leafQ (.sym name) (by intro _ _ _; simp only [prettyTail, prettyPieces]; exact ⟨_, rfl⟩) (by simp [recase, tailElems]) hP, trivial⟩
+  | flt ff neg ds e =>
+    have hP := leafP (.flt ff neg ds e) (by intro _ _; simp [prettyPieces, printFlat])
+    exact ⟨hP, leafQ (.flt ff neg ds e) (by intro _ _ _; simp only [prettyTail, prettyPieces]; exact ⟨_, rfl⟩) (by simp [recase, tailElems]) hP, trivial⟩
   | cons a d iha ihd =>
     have hR := pr_cons cfg margin a d iha.1 ihd.2.1
     refine ⟨?_, ?_, hR⟩
@@ -345,6 +348,7 @@ theorem pretty_size_le_length (hT : TablesOK) (cfg : PCfg) (hC : CfgOK cfg) (mar
   | str s => exact leaf (.str s) rfl (by intro _ _; simp [prettyPieces, printFlat]) (by intro _ _ _; simp only [prettyTail]; exact ⟨_, _, rfl⟩)
   | chr c => exact leaf (.chr c) rfl (by intro _ _; simp [prettyPieces, printFlat]) (by intro _ _ _; simp only [prettyTail]; exact ⟨_, _, rfl⟩)
   | sym s => exact leaf (.sym s) rfl (by intro _ _; simp [prettyPieces, printFlat]) (by intro _ _ _; simp only [prettyTail]; exact ⟨_, _, rfl⟩)
+  | flt ff neg ds e => exact leaf (.flt ff neg ds e) rfl (by intro _ _; simp [prettyPieces, printFlat]) (by intro _ _ _; simp only [prettyTail]; exact ⟨_, _, rfl⟩)
   | cons a d iha ihd =>
     constructor
     · intro hwf offset closes
